@@ -18,6 +18,7 @@ LEVEL = 'exploration'
 CASE_TIMEOUT = 300
 BATCH_SIZE = {'quick': 1, 'thorough': 1}
 REQUIRED_COUNTERS = ['trees', 'constructions', 'drop_level_checks',
+                     'drop_level_on_unserialised_trees',
                      'leaf_pair_sets_checked', 'malformed_rejected',
                      'malformed_label_tables_rejected',
                      'malformed_cellless_rejected']
@@ -249,6 +250,17 @@ def check_tree(ctx, model, rng, work):
             rows[lf].append(i)
         rmodel.cells = rows
         compare_tree_to_model(ctx, t4, rmodel, 'from-label-columns')
+        # the same transformations on this tree as it stands in memory
+        # (never serialised: its child collections are what the builder
+        # made them, not necessarily lists)
+        compare_tree_to_model(ctx, t4.flatten(), rmodel.flatten(),
+                              'from-label-columns:flatten')
+        for lv in rmodel.hierarchy[:-1]:
+            ctx.bump('drop_level_on_unserialised_trees')
+            dm4 = rmodel.drop_level(lv)
+            dm4.cells = rmodel.cells
+            compare_tree_to_model(ctx, t4.drop_level(lv), dm4,
+                                  'from-label-columns:drop_level')
         # malformed label table: one cell's coarser label changed so that
         # a node below the top level gets a second parent
         if len(model.hierarchy) >= 2 and len(records) >= 2:
